@@ -32,16 +32,33 @@ def gen_setup(rng, decimal=False):
         trs.append([[rng.randint(0, W * step) / float(step), rng.randint(0, H * step) / float(step)] for _ in range(n)])
     trs[0][0] = [0.0, 0.0]
     trs[0][-1] = [float(W), float(H)]                 # the bounding box is [0,W] x [0,H]
+    how = rng.choice(['collection', 'collection', 'network', 'incremental'])
+    extra = {'how': how, 'first': rng.randint(1, ntr)}
     if decimal:
-        return {'W': W, 'H': H, 'tracks': trs, 'margin': rng.choice([0.0, 0.05, 0.25, 0.1]), 'res': [rng.choice([0.5, 1.0, 0.7, 0.3, 2.0]), rng.choice([0.5, 1.0, 0.7, 0.3, 2.0])]}
-    return {'W': W, 'H': H, 'tracks': trs, 'margin': rng.choice([0.0, 0.0, 0.5, 0.5]), 'res': [rng.choice([0.5, 1.0, 2.0]), rng.choice([0.5, 1.0, 2.0])]}
+        return {**extra, 'W': W, 'H': H, 'tracks': trs, 'margin': rng.choice([0.0, 0.05, 0.25, 0.1]), 'res': [rng.choice([0.5, 1.0, 0.7, 0.3, 2.0]), rng.choice([0.5, 1.0, 0.7, 0.3, 2.0])]}
+    return {**extra, 'W': W, 'H': H, 'tracks': trs, 'margin': rng.choice([0.0, 0.0, 0.5, 0.5]), 'res': [rng.choice([0.5, 1.0, 2.0]), rng.choice([0.5, 1.0, 2.0])]}
 
 
 def build_index(case):
-    from tracklib.core import TrackCollection
+    """the index over the features of the case: a track collection, a network built in one go, or a network that already carries
+    its index when the last edges are added (addEdge then registers them itself)"""
+    from tracklib.core import TrackCollection, Network, Node, Edge
     from tracklib.core.spatial_index import SpatialIndex
-    col = TrackCollection([mk(t) for t in case['tracks']])
-    return SpatialIndex(col, tuple(case['res']), case['margin'], verbose=False)
+    how = case.get('how', 'collection')
+    if how == 'collection':
+        return SpatialIndex(TrackCollection([mk(t) for t in case['tracks']]), tuple(case['res']), case['margin'], verbose=False)
+    net = Network()
+    def add(k):
+        tr = mk(case['tracks'][k])
+        net.addEdge(Edge(k + 1, tr), Node('s%d' % k, tr.getFirstObs().position), Node('t%d' % k, tr.getLastObs().position))
+    first = len(case['tracks']) if how == 'network' else case.get('first', 1)        # track 0 spans the bounding box
+    for k in range(first):
+        add(k)
+    si = SpatialIndex(net, tuple(case['res']), case['margin'], verbose=False)
+    net.spatial_index = si
+    for k in range(first, len(case['tracks'])):
+        add(k)
+    return si
 
 
 # ------------------------------------------------------------------ stream build
@@ -145,7 +162,7 @@ S_BUILD = Stream(
      | Ok g => forallb (fun ce => leqb (lookup g (fst ce)) (snd ce)) e && forallb (fun cg => existsb (fun ce => cell_eqb (fst ce) (fst cg)) e) g
      | Err _ => false end end.''',
     generate=gen_build, run_impl=run_build, coq_case=coq_build, oracle=oracle_build, shrink=shrink_build, finding_key=finding_build,
-    nontrivial=lambda c, o: len(c['tracks']) >= 2, klass=lambda c, o: 'margin=%s' % c['margin'])
+    nontrivial=lambda c, o: len(c['tracks']) >= 2, klass=lambda c, o: 'margin=%s,%s' % (c['margin'], c.get('how')))
 
 
 # ------------------------------------------------------------------ stream query
@@ -232,7 +249,7 @@ S_QUERY = Stream(
         forallb (fun '(d, u) => Z.eqb (units ix d) u) ds
      end end.''',
     generate=gen_query, run_impl=run_query, coq_case=coq_query, oracle=oracle_query, shrink=shrink_build,
-    nontrivial=lambda c, o: len(c['tracks']) >= 2, klass=lambda c, o: 'margin=%s' % c['margin'])
+    nontrivial=lambda c, o: len(c['tracks']) >= 2, klass=lambda c, o: 'margin=%s,%s' % (c['margin'], c.get('how')))
 
 
 # ------------------------------------------------------------------ stream neighbourhood (end to end, oracle only; dyadic and decimal set-ups)
